@@ -97,6 +97,11 @@ fn value_lit(rng: &mut Rng, ty: ColType, big_ok: bool) -> String {
             let len = if big_ok && rng.chance(1, 12) { rng.range(1001, 5000) as usize } else { rng.below(24) as usize };
             let mut v = vec![0u8; len];
             rng.fill_bytes(&mut v);
+            // a 17-byte value starting with 0xFE is taken for a TOAST pointer by TurDB (in-band
+            // marker; DELETE then loops over a garbage chunk count): keep the valid database valid
+            if v.len() == 17 && v[0] == 0xFE {
+                v[0] = 0x7E;
+            }
             format!("x'{}'", crate::faults::hex(&v))
         }
     }
@@ -125,7 +130,7 @@ pub fn generate(rng: &mut Rng, scale: u32) -> Generated {
         stmts.push(format!("PRAGMA synchronous = {}", rng.pick(&["OFF", "NORMAL", "FULL"])));
     }
     let ntables = 1 + rng.weighted(&[5, 3, 2]);
-    let second_schema = ntables > 1 && rng.chance(1, 10);
+    let second_schema = ntables > 1 && rng.chance(1, 20);
     let mut tables: Vec<TableInfo> = vec![];
     for ti in 0..ntables {
         let schema = if second_schema && ti == ntables - 1 { "s2".to_string() } else { "root".to_string() };
@@ -404,6 +409,7 @@ pub fn run_build(spec: &BuildSpec, root: &Path) -> Result<Built, String> {
             transcript.push("snapshot".into());
             continue;
         }
+        mark(&format!("build stmt {} {}", i, s.chars().take(100).collect::<String>()));
         let r = guarded(|| db.execute(s));
         let c = class_of(&r);
         match &r {
